@@ -12,7 +12,7 @@
        against the regenerated inventory Gen/GenPanicSites.v in Props/C08.v;
      - the observable of the correspondence ([outcome]) and the property's boolean form. *)
 From Coq Require Import List NArith ZArith Bool String.
-From RareV Require Import Base.Hex Base.Res Base.Num Gen.GenC11 Gen.GenFuncs Gen.GenPanicSites
+From RareV Require Import Base.Hex Base.Res Base.Num Gen.GenC11 Gen.GenC17 Gen.GenFuncs Gen.GenPanicSites
   Model.Ctx Model.Humanize Model.CsvItem Model.Funcs Model.Drawing.
 Import ListNotations.
 Local Open Scope Z_scope.
@@ -201,6 +201,62 @@ Definition select_field_r (s : bytes) (idx : Z) : result bytes :=
   match sel_loop s 0 idx 0 0 false false with
   | (ws, Some e) => go_slice s (Z.of_nat ws) (Z.of_nat e)              (* s[wordStart:i] *)
   | (ws, None) => go_slice s (Z.of_nat ws) (blen s)                    (* s[wordStart:] *)
+  end.
+
+(* ------------------------------------------------------------------ @range with its cap (repair 454a143) *)
+(* the loop of kfArrayRange: i is an int64 (i += incr wraps around), at most maxRangeElements elements.
+   None: the cap was exceeded, the helper returns <VALUE>.  [fuel] = cap + 1 rounds always suffice. *)
+Fixpoint range_c (fuel : nat) (i stop incr count : Z) (acc : list Z) : option (list Z) :=
+  match fuel with
+  | O => None
+  | S f =>
+      if ((incr >? 0) && (i <? stop)) || ((incr <? 0) && (i >? stop)) then
+        if maxRangeElements <? count + 1 then None
+        else range_c f (wrap64 (i + incr)) stop incr (count + 1) (i :: acc)
+      else Some (rev acc)
+  end.
+Definition range_capped (start stop incr : Z) : option (list Z) :=
+  range_c (S (Z.to_nat maxRangeElements)) start stop incr 0 [].
+
+(* number of elements of the mathematical progression, in Z (no unary numbers) *)
+Definition range_count_z (start stop incr : Z) : Z :=
+  if incr >? 0 then (stop - start + incr - 1) / incr else (start - stop + (- incr) - 1) / (- incr).
+
+(* {@range [start] stop [incr]} on argument values: Some <VALUE> when the progression has more elements
+   than the cap (prediction of the correspondence; smaller ranges are C17's subject) *)
+(* 0 = no prediction, 1 = more elements than the cap: <VALUE>, 2 = a valid progression within the cap whose
+   last step does not leave int64: anything but <VALUE> *)
+Definition range_class (vs : list bytes) : N :=
+  let go (s e i : bytes) :=
+    match atoi s, atoi e, atoi i with
+    | Some start, Some stop, Some incr =>
+        if negb (incr =? 0) && negb ((incr >? 0) && (start >? stop)) && negb ((incr <? 0) && (start <? stop)) then
+          let c := range_count_z start stop incr in
+          if maxRangeElements <? c then 1%N
+          else if in_int64 (start + c * incr) then 2%N else 0%N
+        else 0%N
+    | _, _, _ => 0%N
+    end in
+  match vs with
+  | [e] => go [48%N] e [49%N]
+  | [s; e] => go s e [49%N]
+  | [s; e; i] => go s e i
+  | _ => 0%N
+  end.
+
+Definition range_overflow (vs : list bytes) : bool :=
+  let go (s e i : bytes) :=
+    match atoi s, atoi e, atoi i with
+    | Some start, Some stop, Some incr =>
+        negb (incr =? 0) && negb ((incr >? 0) && (start >? stop)) && negb ((incr <? 0) && (start <? stop))
+        && (maxRangeElements <? range_count_z start stop incr)
+    | _, _, _ => false
+    end in
+  match vs with
+  | [e] => go [48%N] e [49%N]
+  | [s; e] => go s e [49%N]
+  | [s; e; i] => go s e i
+  | _ => false
   end.
 
 (* ------------------------------------------------------------------ panic-site coverage *)
@@ -409,8 +465,10 @@ Definition covered : list (string * string * string * string * cover) := [
   ("pkg/humanize/units.go", "AlwaysByteSizeSi", "slice", "siSizes[:]", Inert "full / empty slice of an array or buffer");
   ("pkg/humanize/units.go", "AlwaysDownscale", "slice", "unitSize[:]", Inert "full / empty slice of an array or buffer");
   ("pkg/humanize/units.go", "unitize", "index", "units[0]", Lemma G_unitize);
-  ("pkg/humanize/units.go", "unitize", "quo", "nf /= sf", Inert "float64 division");
-  ("pkg/humanize/units.go", "unitize", "index", "units[rank]", Lemma G_unitize)
+  ("pkg/expressions/stageAnalysis.go", "IsStaticProbe", "typeassert", "context.(StaticProbe)", Inert "comma-ok type assertion");
+  ("pkg/expressions/stdlib/funcsArithmatic.go", "unaryArithmaticHelperfi", "shift", "1 << 63", Inert "constant shift count");
+  ("pkg/humanize/units.go", "unitizeFloat", "quo", "nf /= sf", Inert "float64 division");
+  ("pkg/humanize/units.go", "unitizeFloat", "index", "units[rank]", Lemma G_unitize)
 
 ]%string.
 
@@ -431,12 +489,14 @@ Inductive outcome :=
 | RetOk (s : bytes)       (* Compile + BuildKey returned this string *)
 | RetPanic                (* a Go panic was recovered, or the process died with a fatal error *)
 | RetHang                 (* no answer within the watchdog's time / memory limit *)
-| RetAny.                 (* model side only: "returns some string" (no output model for this input) *)
+| RetAny                  (* model side only: "returns some string" (no output model for this input) *)
+| RetNot (s : bytes).     (* model side only: "returns a string other than s" *)
 
 Definition outcome_eqb (m o : outcome) : bool :=
   match m, o with
   | RetOk a, RetOk b => bytes_eqb a b
   | RetAny, RetOk _ => true
+  | RetNot s, RetOk b => negb (bytes_eqb s b)
   | RetPanic, RetPanic => true
   | RetHang, RetHang => true
   | _, _ => false
@@ -444,15 +504,19 @@ Definition outcome_eqb (m o : outcome) : bool :=
 
 Inductive ccase :=
 | CFlat (n : string) (args : list arg) (o : oracle)   (* one call of a helper with an output model, value arguments *)
+| CRange (vs : list bytes)                            (* {@range ..} on these argument values *)
+| CInf                                                (* an @for whose condition never turns false *)
 | CAny.                                               (* any other template *)
 
 Definition of_result (r : result bytes) : outcome := match r with Ok s => RetOk s | Panic => RetPanic end.
 Definition predict (c : ccase) : outcome :=
   match c with
   | CFlat n args o => match eval_name n args o with Some r => of_result r | None => RetAny end
+  | CRange vs => match range_class vs with 1%N => RetOk M_ErrorValue | 2%N => RetNot M_ErrorValue | _ => RetAny end
+  | CInf => RetOk ForInfMarker
   | CAny => RetAny
   end.
 
 (* the property's boolean form on an observed outcome: the implementation returned a string *)
 Definition C08_check (c : ccase) (o : outcome) : bool :=
-  match o with RetOk _ | RetAny => true | RetPanic | RetHang => false end.
+  match o with RetOk _ | RetAny | RetNot _ => true | RetPanic | RetHang => false end.
